@@ -42,7 +42,7 @@ def _run_one(workdir, module, cfg_text, prime, timeout, simulate=None, workers=1
     with open(os.path.join(workdir, cfg_name), "w") as f:
         f.write(txt)
     meta = os.path.join(workdir, f"meta_{prime}")
-    cmd = ["java", "-XX:+UseParallelGC", "-Xss512m", f"-Xmx{heap}", f"-Xms{heap}", "-cp", JAR, "tlc2.TLC",
+    cmd = ["java", "-XX:+UseParallelGC", "-Djava.io.tmpdir=" + workdir, "-Xss512m", f"-Xmx{heap}", f"-Xms{heap}", "-cp", JAR, "tlc2.TLC",
            "-workers", str(workers), "-metadir", meta, "-noGenerateSpecTE", "-config", cfg_name]
     if simulate:
         cmd += ["-simulate", simulate["spec"], "-depth", str(simulate["depth"]), "-seed", str(simulate["seed"])]
